@@ -5,6 +5,12 @@ NOTE_COMMON = ("Trusted: Lean kernel + {propext, Classical.choice, Quot.sound}; 
                "stdcode) are parameters supplied by the implementation; dependency crates are modelled, not verified.")
 
 TEXT = {
+    "C09": {
+        "level": "C09_apply_total: under the reachable-state assumptions ApplyPre, applying ANY batch of arbitrary transactions returns a state or a rejection, never a crash (every panic / overflow / unwrap site of the code is a `crash` outcome of the model; all four crashing phases are covered); C09_load_total, C09_stake_info_total, C09_scripts_total hold unconditionally; C09_seal_total and C09_seal_ok: under SealTotalPre sealing with any action never crashes and never rejects; C09_swap/deposit/withdraw/action/swaps_total; machine-checked witnesses show each assumption is needed (C09_swap_needs_u128, C09_doscmint_*_crash, C09_reward_overflow_witness). Termination is by construction plus C11. The real code is run on hostile inputs (arbitrary bytes in data/covenants/signatures, zero and maximal values, 254-256 outputs, garbage proofs and stake documents, every delta) under catch_unwind; a panic is an output the model must match.",
+        "design_ref": "DESIGN.md §4 C09",
+        "note": NOTE_COMMON + " Repaired by fix: commits: F3, F3b, F16, F7, F10 (assert), F18, withdraw guard. Open known findings: F9, F13, F17, F19, F2, K-faucet-liq.",
+        "technique": "Lean 4 totality theorems over an explicit crash outcome + hostile-input differential execution",
+    },
     "C10": {
         "level": "111 theorems over the Lean executor model (all stacks, heaps, values): 256-bit wrapping arithmetic, div/rem failure iff divisor 0, Exp closed form with the exact bit budget, shifts mod 256, Hash/SigEOk length rules, heap laws, vector/bytes laws with exact out-of-range behaviour, type errors and underflow, forward-only jumps, result = top of stack, and C10_loop_exact (a counted loop runs a straight-line body exactly `it` times). The model is the instruction-by-instruction mirror of executor.rs and is compared with the real executor (result value, failure, step count) on exhaustive short programs, type-aware random programs, loop/jump/doubling families, through the real decoder.",
         "design_ref": "DESIGN.md §4 C10",
@@ -124,5 +130,4 @@ TEXT = {
 NOTES = "See DESIGN.md. known_findings.json lists genuine defects that were repaired (fixed:) or recorded (open)."
 
 NOT_YET = {
-    "C09": "in progress",
 }
